@@ -143,6 +143,7 @@ pub fn run(spec: &ScenarioSpec, ctx: &mut Ctx) -> Result<(), Violation> {
     if let Some(budget) = spec.knobs.get("enospc").copied() {
         let gfull = expect_ok(P, "slippi::read", read_slp(&m.bytes, &StreamSpec::default(), &edges, spec.opts).res)?;
         let wf = write_slpp(gfull, &SinkSpec { enospc_after: Some(budget as u64), ..spec.sink.clone() }, spec.compression);
+        note_write(ctx, &wf);
         if wf.failed {
             if let Res::Ok(()) = wf.res {
                 return Err(Violation::new(P, "swallowed-io-error", "peppi::write", format!("the sink failed after {} bytes but peppi::write returned Ok: what it left behind is not a tar archive", wf.data.len())));
